@@ -273,7 +273,9 @@ def layer_keywords():
         yield ("K", (kw, "plabel"), skeleton(pm=kw), 1e-8)
         yield ("K", (kw, "iname"), skeleton(iname=kw), 1e-8)
         yield ("K", (kw, "pname"), skeleton(pname=kw), 1e-8)
-    for kw in ('a\n"IntervalTier"\nb', "a\nitem [2]:", 'a\ntext = "q" ', "a\nxmin = 5 "):
+    # (the last four: lines of the long layout's FILE HEADER at the start of a continuation line of a label)
+    for kw in ('a\n"IntervalTier"\nb', "a\nitem [2]:", 'a\ntext = "q" ', "a\nxmin = 5 ", "a\ntiers? <exists>\nb", "a\ntiers? <exists> ",
+               'a\nFile type = "ooTextFile"\nb', 'a\nObject class = "TextGrid"\nb'):
         yield ("K", (kw, "ilabel1"), skeleton(l1=kw), 1e-8)
         yield ("K", (kw, "plabel"), skeleton(pm=kw), 1e-8)
 
